@@ -119,6 +119,14 @@ def run_case(run, drv, case_seed, tier):
     single = rng.random() < 0.2
     kind = rng.choice({1: ["v1"], 2: ["a2", "v2"], 3: ["a3", "hy"]}[version])
     files = metas.small_tree(rng, pl, single)
+    forced_link = case_seed < 0
+    if forced_link:
+        # fixed shapes every run includes: a directory reachable under two names, for v1 and hybrid
+        from harness.common import Blob
+        version, single = (1, False) if case_seed == -1 else (3, False)
+        kind = "v1" if version == 1 else "a3"
+        files = gen.FileList([("discs/cd1/a.bin", Blob.rand(3, 20000)), ("discs/cd1/b", Blob.rand(4, 5)),
+                              ("zeta", Blob.rand(5, 100))])
     if not single and rng.random() < 0.5:
         # siblings whose names differ only in case / sort differently under other keys
         from harness.common import Blob
@@ -152,6 +160,20 @@ def run_case(run, drv, case_seed, tier):
         root, name = cr.materialize(parent, files, single)
         if not single:
             name = "payload"
+        nested = sorted({rel.split("/")[0] for rel, _ in files if "/" in rel})
+        if not single and nested and (forced_link or rng.random() < 0.25) and \
+                not os.path.lexists(os.path.join(root, "latest")):
+            # one directory of the payload is reachable under a second name (a symbolic link):
+            # the creators follow it, so its files are payload under both names
+            os.symlink(nested[0], os.path.join(root, "latest"))
+            case["dir_link"] = {"latest": nested[0]}
+            dup = [("latest" + rel[len(nested[0]):], b) for rel, b in files
+                   if rel.startswith(nested[0] + "/")]
+            ed = tuple(getattr(files, "emptydirs", ())) + tuple(
+                "latest" + d[len(nested[0]):] for d in getattr(files, "emptydirs", ())
+                if d == nested[0] or d.startswith(nested[0] + "/"))
+            files = gen.FileList(list(files) + dup)
+            files.emptydirs = ed
         impl.pin_clock(1_700_000_000)
         base = impl.create(kind, root, os.path.join(box, "base.torrent"), piece_length=pl, **iopts)
         base_info = info_bytes(base)
@@ -265,7 +287,7 @@ def run(tier, seed, replay=None):
     run = Run("C08", tier, seed, RULE)
     drv = Driver()
     seeds = [replay["case"]["case_seed"]] if replay else \
-        [run.rng.randrange(10 ** 9) for _ in range(40 if tier == "quick" else 400)]
+        [-1, -2] + [run.rng.randrange(10 ** 9) for _ in range(40 if tier == "quick" else 400)]
     from harness.common import guarded
     for s in seeds:
         guarded(run, {"case_seed": s}, run_case, run, drv, s, tier)
